@@ -41,7 +41,9 @@ def register_progress(R):
     from vf.pyvc.contracts import Loop
 
     R.record("Progress", [("_lock", "opaque:RLock"), ("_tasks", "dict[int,Task]"), ("_task_index", "int"),
-                          ("get_time", "opaque:GetTime"), ("speed_estimate_period", "float")],
+                          ("get_time", "opaque:GetTime"), ("speed_estimate_period", "float"),
+                          # the display side, as seen by refresh() (contracts/c_livestop.py)
+                          ("console", "ConsoleL"), ("disable", "bool"), ("_live_render", "LiveRender")],
              pyclass="rich.progress.Progress", mutable=True)
     # the clock: readings never decrease (the property's "arbitrary (monotone) clock readings");
     # ghost_now is the latest reading handed out to any thread
@@ -88,17 +90,14 @@ def register_update(R):
     adv = R.contracts[("rich.progress", "Progress.advance")]
     R.contract("<opaque>", "FieldsDict.update", serves=["C12"], params={"self": "opaque:FieldsDict", "other": "opaque:FieldsDict"},
                trusted="dict.update on the free-form task fields (not part of the property)")
-    R.contract("rich.progress", "Progress.refresh", serves=["C12", "C10"], params={"self": "Progress"},
-               raises={"BaseException": "*"},
-               trusted="rendering: reads the tasks, writes to the console, may raise from user columns; does not modify task accounting (by inspection: refresh/get_renderable/make_tasks_table only read task fields)")
     T = "self._tasks[task_id]"
     A = "acq(self._tasks[task_id])"
     R.contract(
         "rich.progress", "Progress.update", serves=["C12", "C11"],
         params={"self": "Progress", "task_id": "int", "total": "Optional[float]", "completed": "Optional[float]", "advance": "Optional[float]",
                 "description": "Optional[ostr]", "visible": "Optional[bool]", "refresh": "bool", "fields": "opaque:FieldsDict"},
-        requires=["implies(advance is not None, advance >= 0)", "implies(completed is not None, completed >= 0)"],
-        ghost={"ghost_now": "float"}, monitor=adv.monitor, loops=adv.loops,
+        requires=["implies(advance is not None, advance >= 0)", "implies(completed is not None, completed >= 0)", "console_ok(self.console)"],
+        ghost={"ghost_now": "float"}, monitor=adv.monitor, loops=adv.loops, modifies=["self.console.unwritten"],
         raises={"KeyError": "*", "BaseException": "*"},
         ensures=[
             f"implies(completed is not None, {T}.completed == completed)",
@@ -115,6 +114,7 @@ def register_update(R):
         params={"self": "Progress", "task_id": "int", "start": "bool", "total": "Optional[int]", "completed": "int",
                 "visible": "Optional[bool]", "description": "Optional[ostr]", "fields": "opaque:FieldsDict"},
         ghost={"ghost_now": "float"}, monitor=adv.monitor,
+        requires=["console_ok(self.console)"], modifies=["self.console.unwritten"],
         raises={"KeyError": "*", "BaseException": "*"},
         ensures=[
             f"{T}.completed == completed",
